@@ -12,7 +12,19 @@ Inductive case :=
 (* a sequence of guard evaluations on ONE set of long-lived handler objects that share the
    configured confirmation depth, as app.go wires them: the guards must stay what they are however
    often and in whatever order they have been used before *)
-| Seq (conf : Z) (ops : list (path * Z * Z)) (impl_blocks : list (list Z)).
+| Seq (conf : Z) (ops : list (path * Z * Z)) (impl_blocks : list (list Z))
+(* several evaluations on ONE set of long-lived handler objects - mode 0: one after the other in one
+   goroutine (a message batch / the requests of one range), 1: each in its own goroutine under a
+   scripted interleaving (the fake RPC client parks calls), 2: each in its own goroutine, free running.
+   Every evaluation comes with the head IT was served and the blocks IT handed to processing;
+   [None] = the RPC answer carried no number (receipt without block number, head request without
+   number). *)
+| Multi (mode : N) (conf : Z) (evs : list evaluation) (impl_blocks : list (list Z))
+(* ONE call served one head whose range holds several retry requests; flat observation *)
+| Batch (p : path) (head conf : Z) (blks : list Z) (impl_blocks : list Z)
+(* EVM retry by transaction hash: the RetryV1 events of one scanned range through the real event
+   handler; per event the indices of the receipt's logs whose deposits became messages *)
+| TxBatch (conf : Z) (evs : list txev) (impl_logs : list (list N)).
 
 Fixpoint obs_eqb (a b : list (N * Z)) : bool :=
   match a, b with
@@ -26,6 +38,20 @@ Fixpoint zs_eqb (a b : list Z) : bool :=
   | [], [] => true
   | x :: a', y :: b' => Z.eqb x y && zs_eqb a' b'
   | _, _ => false
+  end.
+
+Fixpoint ns_eqb (a b : list N) : bool :=
+  match a, b with
+  | [], [] => true
+  | x :: a', y :: b' => N.eqb x y && ns_eqb a' b'
+  | _, _ => false
+  end.
+
+Definition in_domain_opt (p : path) (oh ob : option Z) : bool :=
+  match oh, ob with
+  | Some h, Some b => in_domain p h b
+  | Some h, None => in_domain p h 0
+  | None, _ => match p with EvmRetryTx | EvmRetryMsg => true | _ => false end
   end.
 
 Fixpoint seq_all (f : path -> Z -> Z -> list Z -> bool) (ops : list (path * Z * Z)) (obs : list (list Z)) : bool :=
@@ -42,6 +68,11 @@ Definition agree (c : case) : bool :=
   | Hist st conf heads obs => forallb in_int64 heads && obs_eqb (scan st conf 0%N heads) obs
   | Seq conf ops obs =>
       seq_all (fun p head blk h => in_domain p head blk && zs_eqb (processed p head blk conf) h) ops obs
+  | Multi _ conf evs obs =>
+      all2 (fun e o => match e with (p, oh, ob) => in_domain_opt p oh ob end && zs_eqb (eval_model conf e) o) evs obs
+  | Batch p head conf blks obs =>
+      forallb (fun b => in_domain p head b) blks && zs_eqb (batch_model p head conf blks) obs
+  | TxBatch conf evs obs => all2 (fun e o => ns_eqb (tx_model conf e) o) evs obs
   end.
 
 Definition judge (c : case) : bool :=
@@ -49,6 +80,9 @@ Definition judge (c : case) : bool :=
   | Single p head blk conf h => single_ok p head blk conf h
   | Hist st conf heads obs => hist_ok st conf 0%N heads obs
   | Seq conf ops obs => seq_all (fun p head blk h => single_ok p head blk conf h) ops obs
+  | Multi _ conf evs obs => multi_ok conf evs obs
+  | Batch p head conf _ obs => batch_ok p head conf obs
+  | TxBatch conf evs obs => txs_ok conf evs obs
   end.
 
 (* branch tag of the model: path x accepted?, history x anything handled? *)
@@ -61,6 +95,10 @@ Definition tag (c : case) : N :=
   | Hist st conf heads _ => match scan st conf 0%N heads with [] => 12%N | _ => 13%N end
   | Seq conf ops _ =>
       if existsb (fun o => match o with (p, head, blk) => accept p head blk conf end) ops then 15%N else 14%N
+  | Multi mode conf evs _ =>
+      (16 + 2 * N.min mode 2 + if existsb (fun e => negb (is_nil (eval_model conf e))) evs then 1 else 0)%N
+  | Batch p head conf blks _ => if is_nil (batch_model p head conf blks) then 22%N else 23%N
+  | TxBatch conf evs _ => if existsb (fun e => negb (is_nil (tx_model conf e))) evs then 25%N else 24%N
   end.
 
 (* the judge accepts the model's own outputs on every sequence *)
